@@ -66,14 +66,15 @@ func jsonCheck(r *core.Run, prop string) int {
 		"C08": "one evaluation = one JSON document generated FROM the schema by an independent generator (optional subsets, null where nullable, extra keys where additionalProperties is declared, shuffled key order, whitespace styles) decoded and re-encoded, or one single-fault mutant (one required key dropped / one declared property given a non-null value of another JSON type, at every depth), also sent as request body through the generated server; distinct = (spec, Go type) pairs driven",
 	}[prop]
 	cov := map[string]any{
-		"evaluations":         evals,
-		"distinct_nontrivial": len(s.Distinct),
-		"rule":                rule,
-		"samples":             s.Samples,
-		"packages_driven":     s.Ran,
-		"not_generated":       s.NotGen,
-		"not_runnable":        s.NotRunnable,
-		"event_counts":        s.Stats,
+		"evaluations":                evals,
+		"distinct_nontrivial":        len(s.Distinct),
+		"rule":                       rule,
+		"samples":                    s.Samples,
+		"packages_driven":            s.Ran,
+		"not_generated":              s.NotGen,
+		"not_runnable":               s.NotRunnable,
+		"event_counts":               s.Stats,
+		"second_opinion_kin_openapi": map[string]any{"agree_valid": s.Stats["second_opinion_agree_valid"], "agree_invalid": s.Stats["second_opinion_agree_invalid"], "only_kin_rejects": s.Stats["second_opinion_only_kin_rejects"], "only_mine_rejects": s.Stats["second_opinion_only_mine_rejects"], "disagreement_samples": s.Notes},
 	}
 	return r.Finish(cov, []string{"domain: valid UTF-8 strings, finite floats, RawMessage holding valid JSON, oneOf with exactly one arm whose discriminator names it, additional keys disjoint from declared ones", "matrix cells that goag refuses or that do not compile (C01 known findings) are counted, not judged here"})
 }
